@@ -154,6 +154,55 @@ def _has_uf(f):
     return bool(state.S.trans)
 
 
+def random_point_witness(ds, assumptions, tries=80):
+    """Refutation by evaluation: look for a pseudo-random rational point that satisfies every relevant axiom/assumption and makes some
+    entry differ.  Returns (z3 model, index) or None.  Only REFUTES (a witness is replayed on the real code like any solver model);
+    `holds` verdicts always come from the solver."""
+    real = [(i, d) for i, d in ds if d is not True]
+    if not real:
+        return None
+    f = z3.Or(*[d for _, d in real]) if len(real) > 1 else real[0][1]
+    if _has_div(f) and False:
+        return None
+    rel = _relevant(list(state.S.axioms) + [getattr(a, 'e', a) for a in assumptions if not isinstance(getattr(a, 'e', a), bool)], [f])
+    syms = {}
+    for g in [f] + rel:
+        for c in _collect_consts(g):
+            syms[c.decl().name()] = c
+    if not syms or len(syms) > 3000:
+        return None
+    import hashlib
+    for k in range(tries):
+        sub = []
+        for n, c in syms.items():
+            hsh = int(hashlib.sha1(('%d/%s' % (k, n)).encode()).hexdigest()[:8], 16)
+            val = z3.Q(1 + hsh % 13, 2 + (hsh // 13) % 9)
+            if (hsh // 1000) % 3 == 0 and not n.startswith(('u', 'theta', 'nu', 'k', 'variance', 'simulations', 'h')):
+                val = -val
+            if n.startswith('u') or n.startswith('theta'):
+                val = z3.Q(1 + hsh % 7, 9 + (hsh // 7) % 5)       # in (0, 1)
+            sub.append((c, val))
+        try:
+            ok = all(z3.is_true(z3.simplify(z3.substitute(a, *sub))) for a in rel)
+            if not ok:
+                continue
+            hit = None
+            for i, d in real:
+                if z3.is_true(z3.simplify(z3.substitute(d, *sub))):
+                    hit = i
+                    break
+        except Exception:
+            return None
+        if hit is None:
+            continue
+        sol = z3.Solver()
+        for c, v in sub:
+            sol.add(c == v)
+        if str(sol.check()) == 'sat':
+            return sol.model(), hit
+    return None
+
+
 def prove_equal(A, B, assumptions=(), timeout_ms=60000):
     """unsat <=> A == B entry-wise for all values of the free symbols (under axioms+assumptions)"""
     t0 = time.time()
@@ -170,6 +219,14 @@ def prove_equal(A, B, assumptions=(), timeout_ms=60000):
             if v.status == 'unsat':
                 return Verdict('unsat', note='assumptions unsatisfiable (vacuous)')
             return Verdict('unknown', seconds=time.time() - t0)
+    if not state.S.trans:
+        try:
+            w = random_point_witness(ds, assumptions)
+        except Exception:
+            w = None
+        if w is not None:
+            STATS['sat'] += 1
+            return Verdict('sat', w[0], w[1], time.time() - t0, 'witness by evaluation at a rational point')
     v = check_sat(z3.Or(*[d for _, d in ds]) if len(ds) > 1 else ds[0][1], assumptions, timeout_ms)
     if v.status == 'unsat':
         return Verdict('unsat', seconds=time.time() - t0)
